@@ -3,8 +3,10 @@
 package main
 
 import (
-	"sync"
 	"bytes"
+	"context"
+	"runtime"
+	"sync"
 	"crypto/tls"
 	"errors"
 	"fmt"
@@ -19,9 +21,60 @@ import (
 
 	fingerproxy "github.com/wi1dcard/fingerproxy"
 	"github.com/wi1dcard/fingerproxy/pkg/http2"
-	"golang.org/x/net/http2/hpack"
 	"github.com/wi1dcard/fingerproxy/pkg/reverseproxy"
+	xhttp2 "golang.org/x/net/http2"
+	"golang.org/x/net/http2/hpack"
 )
+
+// verConn rewrites the legacy_record_version of the first TLS record the client writes (crypto/tls ignores that
+// field on the first record, so the handshake completes whatever it says).
+type verConn struct {
+	net.Conn
+	ver  uint16
+	done bool
+}
+
+func (c *verConn) Write(b []byte) (int, error) {
+	if !c.done && len(b) >= 5 && b[0] == 22 {
+		c.done = true
+		b = append([]byte{}, b...)
+		b[1], b[2] = byte(c.ver>>8), byte(c.ver)
+	}
+	return c.Conn.Write(b)
+}
+
+// zeroReader yields n zero bytes
+type zeroReader struct{ n int64 }
+
+func (z *zeroReader) Read(b []byte) (int, error) {
+	if z.n <= 0 {
+		return 0, io.EOF
+	}
+	if int64(len(b)) > z.n {
+		b = b[:z.n]
+	}
+	for i := range b {
+		b[i] = 0
+	}
+	z.n -= int64(len(b))
+	return len(b), nil
+}
+
+// memoryWatchdog ends the process the way the kernel's OOM killer eventually would when the heap grows with the
+// number of bytes a client sends: the scenarios stream at most `bound` bytes of live data through the process.
+func memoryWatchdog(bound uint64) {
+	go func() {
+		var ms runtime.MemStats
+		for {
+			time.Sleep(10 * time.Millisecond)
+			runtime.ReadMemStats(&ms)
+			if ms.HeapAlloc > bound {
+				fmt.Fprintf(os.Stderr, "fatal error: out of memory (verif bound): heap=%dMiB grows with the bytes one client sent\n", ms.HeapAlloc>>20)
+				os.Exit(3)
+			}
+		}
+	}()
+}
 
 // ---- C10: every scenario runs in a CHILD process; the parent observes whether the process survived and
 // whether a control client was served afterwards.
@@ -306,6 +359,98 @@ func surviveChild(a []string) string {
 			}(hb)
 		}
 		wg.Wait()
+	case "upload":
+		// one client uploads mib MiB (streamed to the backend, which discards it); its ClientHello carries the given
+		// legacy_record_version. The process must neither die nor keep what it was sent.
+		mib, _ := strconv.Atoi(kv["mib"])
+		ver, _ := strconv.ParseUint(kv["recver"], 16, 16)
+		memoryWatchdog(64 << 20)
+		dial := func() (net.Conn, error) {
+			raw, err := (&net.Dialer{Timeout: 3 * time.Second}).Dial("tcp", env.addr)
+			if err != nil {
+				return nil, err
+			}
+			tc := tls.Client(&verConn{Conn: raw, ver: uint16(ver)}, &tls.Config{InsecureSkipVerify: true, NextProtos: alpn})
+			tc.SetDeadline(time.Now().Add(25 * time.Second))
+			if err := tc.Handshake(); err != nil {
+				raw.Close()
+				return nil, err
+			}
+			return tc, nil
+		}
+		var rt http.RoundTripper
+		if proto == "h2" {
+			rt = &xhttp2.Transport{DialTLSContext: func(ctx context.Context, network, addr string, cfg *tls.Config) (net.Conn, error) { return dial() }}
+		} else {
+			rt = &http.Transport{DialTLSContext: func(ctx context.Context, network, addr string) (net.Conn, error) { return dial() }}
+		}
+		rq, _ := http.NewRequest("POST", "https://example.test/upload", &zeroReader{n: int64(mib) << 20})
+		rq.ContentLength = int64(mib) << 20
+		rq.Header.Set("X-Verif-Tag", "upload")
+		rq.Header.Set("X-Verif-Discard", "1")
+		resp, err := rt.RoundTrip(rq)
+		first = "refused"
+		if err == nil {
+			io.Copy(io.Discard, resp.Body)
+			resp.Body.Close()
+			first = fmt.Sprintf("status=%d", resp.StatusCode)
+		}
+		if c, ok := rt.(interface{ CloseIdleConnections() }); ok {
+			c.CloseIdleConnections()
+		}
+	case "rstinflight":
+		// connection A asks for a large response, stops reading (a DATA frame write of the proxy blocks in flight), resets the
+		// stream and then drops the connection. Requests on OTHER connections must be served completely afterwards.
+		env.backend.mu.Lock()
+		env.backend.respond = func(tag string, w http.ResponseWriter, r *http.Request, body []byte) {
+			if tag != "big" {
+				w.Header().Set("X-Backend-Tag", tag)
+				w.WriteHeader(200)
+				io.WriteString(w, "ok:"+tag)
+				return
+			}
+			w.WriteHeader(200)
+			chunk := make([]byte, 16<<10)
+			for i := 0; i < 2048; i++ { // 32 MiB
+				if _, err := w.Write(chunk); err != nil {
+					return
+				}
+				w.(http.Flusher).Flush()
+			}
+		}
+		env.backend.mu.Unlock()
+		raw, err := (&net.Dialer{Timeout: 3 * time.Second}).Dial("tcp", env.addr)
+		if err == nil {
+			tc := tls.Client(raw, &tls.Config{InsecureSkipVerify: true, NextProtos: []string{"h2"}})
+			tc.SetDeadline(time.Now().Add(10 * time.Second))
+			if err := tc.Handshake(); err == nil {
+				io.WriteString(tc, http2.ClientPreface)
+				fr := http2.NewFramer(tc, tc)
+				fr.WriteSettings(http2.Setting{ID: http2.SettingInitialWindowSize, Val: 1<<31 - 1})
+				fr.WriteWindowUpdate(0, 1<<31-1-65535)
+				var hb bytes.Buffer
+				enc := hpack.NewEncoder(&hb)
+				for _, f := range [][2]string{{":method", "GET"}, {":scheme", "https"}, {":path", "/big"}, {":authority", "example.test"}, {"x-verif-tag", "big"}} {
+					enc.WriteField(hpack.HeaderField{Name: f[0], Value: f[1]})
+				}
+				fr.WriteHeaders(http2.HeadersFrameParam{StreamID: 1, BlockFragment: hb.Bytes(), EndHeaders: true, EndStream: true})
+				time.Sleep(400 * time.Millisecond) // never reading: the proxy's socket buffers fill, one frame write blocks
+				fr.WriteRSTStream(1, http2.ErrCodeCancel)
+				time.Sleep(200 * time.Millisecond)
+				first = "reset-in-flight"
+			}
+			if t, ok := raw.(*net.TCPConn); ok {
+				t.SetLinger(0)
+			}
+			raw.Close()
+			time.Sleep(100 * time.Millisecond)
+		}
+		victims, _ := strconv.Atoi(kv["victims"])
+		for i := 0; i < victims; i++ {
+			if r := controlClient(env); r != "ok" {
+				return fmt.Sprintf("first=%s control=%s@victim%d", first, r, i)
+			}
+		}
 	case "h2stall":
 		// the client advertises a zero stream window, so the response body cannot be sent and the stream stays open
 		// until the read timeout fires; body=0: request without body (END_STREAM on HEADERS), body=1: body never sent
@@ -348,6 +493,12 @@ func init() {
 	registerOp("survive", func(a []string) string {
 		cmd := exec.Command(os.Args[0], append([]string{"child", "survive"}, a...)...)
 		cmd.Env = append(os.Environ(), "GOMEMLIMIT=2GiB", "GOTRACEBACK=single")
+		for _, t := range a {
+			if strings.HasPrefix(t, "gmp=") {
+				// a scenario about a hand-off through a process-wide pool is only deterministic on one P
+				cmd.Env = append(cmd.Env, "GOMAXPROCS="+t[4:])
+			}
+		}
 		var out, errb bytes.Buffer
 		cmd.Stdout, cmd.Stderr = &out, &errb
 		done := make(chan error, 1)
@@ -383,6 +534,18 @@ func init() {
 		for _, body := range []int{0, 1} {
 			c.tag("kind:h2stall")
 			c.op(fmt.Sprintf("survive kind=h2stall rto=300 body=%d", body))
+		}
+		// uploads much larger than any buffer, with every legacy_record_version around the accepted range on the hello
+		for _, proto := range []string{"h1", "h2"} {
+			for _, ver := range []string{"0301", "0303", "0300", "0305", "0200", "ffff"} {
+				c.tag("kind:upload")
+				c.op(fmt.Sprintf("survive kind=upload proto=%s recver=%s mib=160", proto, ver))
+			}
+		}
+		// a stream reset while one of its DATA frames is being written, then unrelated connections
+		for _, gmp := range []string{"1", "1", "4"} {
+			c.tag("kind:rstinflight")
+			c.op(fmt.Sprintf("survive kind=rstinflight victims=12 gmp=%s", gmp))
 		}
 		// every HEADERS layout around the padding / priority boundaries, one connection each
 		var blobs []string
